@@ -587,6 +587,25 @@ fn run_json(c: &FileCase, obs: &mut Obs) -> CheckResult {
     let wt = String::from_utf8(w).map_err(|e| Fail::new(format!("to_writer_pretty wrote invalid UTF-8: {}", e)))?;
     check_back("to_writer_pretty/from_str", &wt, SlurmFile::from_str(&wt))?;
 
+    // The same content in a file that was created empty and then filled through
+    // its public fields (whatever `new` derived from its arguments is stale):
+    // it, too, must come back from its own JSON as an equal file with the same
+    // filters and assertions.
+    {
+        let mut late = SlurmFile::new(ValidationOutputFilters::new(Vec::new(), Vec::new()), LocallyAddedAssertions::default());
+        late.filters = file.filters.clone();
+        late.assertions = file.assertions.clone();
+        let text = no_panic("to_string (fields assigned after construction)", || late.to_string())?;
+        match SlurmFile::from_str(&text) {
+            Ok(b) => ensure_sig!(
+                b == late && b.filters == file.filters && b.assertions == file.assertions,
+                "json-field-assigned-file",
+                "a file filled through its public fields does not come back from its own JSON.\n json: {}\n parsed:   {:?}\n original: {:?}", text, b, late
+            ),
+            Err(e) => return Err(Fail::sig("json-field-assigned-file", format!("a file filled through its public fields writes JSON that does not parse: {}\n json: {}", e, text))),
+        }
+    }
+
     // assertions -> payload items
     let got: Vec<rtr::Payload> = file.assertions.iter_payload().collect();
     let a = &c.assertions;
